@@ -12,6 +12,9 @@ import vlib
 
 DOC2 = "subscription { s1 { id bad slow boom } s2 { id bad slow boom } }"
 DOC1 = "subscription { s1 { id bad slow boom } }"
+# the same with aliased root fields (the harness renames the response keys a1/a2 back to s1/s2)
+DOC2A = "subscription { a1: s1 { id bad slow boom } a2: s2 { id bad slow boom } }"
+DOC1A = "subscription { a1: s1 { id bad slow boom } }"
 
 
 def body(c):
@@ -40,7 +43,8 @@ def body(c):
     for s in scheds:
         uses_s2 = any(cmd[1] == "s2" for cmd in s)
         for flavour in ("static", "dynamic"):
-            rows.append({"flavour": flavour, "doc": DOC2 if uses_s2 else rng.choice([DOC1, DOC2]), "sched": s, "single": False})
+            al = rng.random() < 0.3
+            rows.append({"flavour": flavour, "doc": (DOC2A if al else DOC2) if uses_s2 else rng.choice([DOC1A, DOC2A] if al else [DOC1, DOC2]), "sched": s, "single": False})
     # seeded random longer sequences
     for _ in range(200 if c.quick else 3000):
         s = []
@@ -50,7 +54,7 @@ def body(c):
                 s.append(["arrive", f, rng.choice(["plain", "bad", "slow", "badslow", "fatal", "badfatal"])])
             else:
                 s.append(["open", f, ""])
-        rows.append({"flavour": rng.choice(["static", "dynamic"]), "doc": DOC2, "sched": s, "single": False})
+        rows.append({"flavour": rng.choice(["static", "dynamic"]), "doc": rng.choice([DOC2, DOC2, DOC2A]), "sched": s, "single": False})
     for flavour in ("static", "dynamic"):
         rows.append({"flavour": flavour, "doc": "{ n }", "sched": [], "single": True})
     rows.append({"flavour": "static", "doc": "mutation { bump }", "sched": [], "single": True})
